@@ -8,6 +8,7 @@
 // Oracle: total truth tables (2^NV entries) kept beside every handle.
 #include "common.hh"
 #include <memory>
+#include <thread>
 #include <functional>
 #include <unordered_map>
 #include <unordered_set>
@@ -127,6 +128,10 @@ static void history(vh::Rng& g, const std::string& prop, bool lifetimeOnly)
 	size_t l0 = M::VerifLeafCacheSize(), i0 = M::VerifInternalCacheSize();
 #endif
 	bool reuse = g.chance(1, 2);    // the library keeps one functor object per loop: reuse them across applies
+	// a sixth of the lifetime histories: some copies and destructions happen on another thread that is joined at
+	// once — never concurrently, which a library without locks allows; the node store is process-wide, whichever
+	// thread drops the last reference (seeded change m86: unique tables made thread_local)
+	bool foreign = lifetimeOnly && g.chance(1, 6); if (foreign) R->count("histories-with-steps-on-another-thread");
 	std::string trace = reuse ? "[functors reused]" : "[fresh functors]"; bool failed = false; bool sharing = false;
 	{
 		F1<D> rf1; F2<D> rf2; F3<D> rf3; V2<D> rv2; V1<D> rv1;   // reused across steps when `reuse` (also after a stopProcessing)
@@ -143,9 +148,9 @@ static void history(vh::Rng& g, const std::string& prop, bool lifetimeOnly)
 				R->phase(("mtbdd op " + vh::str(op)).c_str());
 				switch (op)
 				{
-					case 2: if (room) { H<D> h; h.m.reset(new M(*pool[i].m)); h.tab = pool[i].tab; pool.push_back(std::move(h)); trace += "copy;"; sharing = true; } break;
+					case 2: if (room) { H<D> h; if (foreign && g.chance(1, 2)) { std::thread t([&] { h.m.reset(new M(*pool[i].m)); }); t.join(); trace += "copy(on another thread);"; } else { h.m.reset(new M(*pool[i].m)); trace += "copy;"; } h.tab = pool[i].tab; pool.push_back(std::move(h)); sharing = true; } break;
 					case 3: *pool[i].m = *pool[j].m; pool[i].tab = pool[j].tab; trace += (i == j ? "self-assign;" : "assign;"); if (i == j) R->count("self-assignment"); sharing = true; break;
-					case 4: pool.erase(pool.begin() + i); trace += "del;"; break;
+					case 4: if (foreign && g.chance(1, 2)) { std::thread t([&] { pool.erase(pool.begin() + i); }); t.join(); trace += "del(on another thread);"; } else { pool.erase(pool.begin() + i); trace += "del;"; } break;
 					case 5: if (room) { opSel = static_cast<int>(g.below(2)); H<D> h; if (reuse) h.m.reset(new M(rf1(*pool[i].m))); else { F1<D> f; h.m.reset(new M(f(*pool[i].m))); } for (auto& v : pool[i].tab) h.tab.push_back(Ops<D>::f1(v)); pool.push_back(std::move(h)); trace += "apply1;"; } break;
 					case 6: case 7: if (room) { opSel = static_cast<int>(g.below(5)); H<D> h; if (reuse) h.m.reset(new M(rf2(*pool[i].m, *pool[j].m))); else { F2<D> f; h.m.reset(new M(f(*pool[i].m, *pool[j].m))); } for (unsigned x = 0; x < T; ++x) h.tab.push_back(Ops<D>::f2(pool[i].tab[x], pool[j].tab[x])); pool.push_back(std::move(h)); trace += "apply2;"; } break;
 					case 8: if (room) { opSel = static_cast<int>(g.below(2)); H<D> h; if (reuse) h.m.reset(new M(rf3(*pool[i].m, *pool[j].m, *pool[k].m))); else { F3<D> f; h.m.reset(new M(f(*pool[i].m, *pool[j].m, *pool[k].m))); } for (unsigned x = 0; x < T; ++x) h.tab.push_back(Ops<D>::f3(pool[i].tab[x], pool[j].tab[x], pool[k].tab[x])); pool.push_back(std::move(h)); trace += "apply3;"; } break;
